@@ -767,7 +767,8 @@ def run(rep):
             for cls in need:
                 ok = f"{kind}:{t}:{cls}" in test_classes
                 multibit[f"{kind}:{t}:{cls}"] = ok
-                rep.require(not guards or ok, f"multi-bit test {t} never met as {cls} by a {kind} statement")
+    missing = sorted(k for k, ok in multibit.items() if not ok)
+    rep.require(not guards or not missing, f"multi-bit tests never met in a conforming step: {missing}")
     rep.setcov("multibit_test_classes_seen", sorted(c for c in test_classes if c.split(":")[1] in G.MULTIBIT))
     for key in ("timing_active_edges", "timing_inactive_edges", "timing_no_edge", "timing_prints", "timing_stops",
                 "timing_active_edges_nothing_enabled", "timing_both_domains_edge", "timing_rst_events"):
